@@ -8,6 +8,13 @@ There is no process-wide lock or once-flag in the code base, so
               shared unsynchronised state between instances: one finding per (global, writer function).  Findings that
               exist today are frozen in known_findings.json; a new mutable global, or a new writer of an existing one, is a
               violation.  Dispatch (RTCD) pointer tables are grouped per setup function.
+  C17.ESCAPE  the address of mutable process-global storage does not escape into instance-owned storage: a small points-to
+              analysis follows every address-of / array decay of a mutable global, and every pointer read out of a (const)
+              global table whose initialiser holds such addresses ("carrier"), through locals, pointer arithmetic, returns
+              and one level of callee parameters.  Each use must be a read: an indexed load, a read-only argument (memcpy
+              source, a parameter the callee neither writes through nor stores), a comparison.  A store of such a pointer
+              into a member / heap cell with a non-const pointee, a whole-struct copy out of a carrier, or a write through
+              such a pointer makes one instance's later writes land in storage every instance shares.
   C17.NOLOCK  the premise is re-checked on every run: no mutex that is itself a process global exists (if one appears, the
               rule must be revisited: analysis broken rather than a silent pass)
 """
@@ -17,16 +24,24 @@ from engine.classes import Classes
 PID = 'C17'
 
 META = {
-    'technique': 'whole-program inventory of variables with static storage and of their writers (type-resolved stores, memset/memcpy destinations, one-level interprocedural write-through-pointer summaries) joined with call-graph reachability from the API',
-    'text': 'Decides the clause "instances share no unsynchronised mutable state" structurally: every mutable process global and every function that writes it is enumerated from the whole program; each (global, writer) pair reachable from the API is a point where two instances interfere. The pairs that exist today are genuine multi-instance defects recorded as known findings; the check fails on any new global or new writer. Interference through the heap or the OS is not decided.',
+    'technique': 'whole-program inventory of variables with static storage and of their writers (type-resolved stores, memset/memcpy destinations, one-level interprocedural write-through-pointer summaries) joined with call-graph reachability from the API; flow-insensitive points-to / escape analysis of addresses of mutable globals (through locals, returns, carrier tables and callee parameter summaries)',
+    'text': 'Decides (GLOBAL) the clause "instances share no unsynchronised mutable state" structurally: every mutable process global and every function that writes it is enumerated from the whole program; each (global, writer) pair reachable from the API is a point where two instances interfere. The pairs that exist today are genuine multi-instance defects recorded as known findings; the check fails on any new global or new writer. C17.ESCAPE additionally shows that no pointer into mutable global storage is planted in per-instance structures (so the inventory of writers is complete with respect to aliasing through instance pointers). Interference through the heap or the OS is not decided.',
     'note': 'logging configuration (g_log_file, g_log_level) is process-wide by design and exempt with that reason; writers that are dead code are ignored',
     'ref': 'DESIGN.md section 5 C17',
 }
 
 BY_DESIGN = {'g_log_file': 'process-wide logging configuration, set once from the environment by svt_log_init',
              'g_log_level': 'process-wide logging configuration, set once from the environment by svt_log_init'}
-MEMW = {'memset': (0,), 'memcpy': (0,), 'svt_memcpy': (0,), 'memmove': (0,), 'rand_r': (0,), 'svt_memcpy_c': (0,), 'strcpy': (0,), 'strncpy': (0,),
+MEMW = {'__builtin_memset': (0,), '__builtin_memcpy': (0,), 'memset': (0,), 'memcpy': (0,), 'svt_memcpy': (0,), 'memmove': (0,), 'rand_r': (0,), 'svt_memcpy_c': (0,), 'strcpy': (0,), 'strncpy': (0,),
         'EB_MEMSET': (0,), 'fread': (0,)}
+
+
+def cname(e):
+    """callee name, also for calls through a process-global function pointer (RTCD slots such as svt_memcpy)"""
+    n = callee_name(e)
+    if n is None and e[1] and e[1][0] == 'v' and e[1][2] in ('g', 's'):
+        return e[1][1]
+    return n
 
 
 def param_write_summary(P):
@@ -87,7 +102,7 @@ def run(P, rep, tier):
                     else:
                         writers.setdefault(r[1], {}).setdefault(f.name, (f, ev, 'store'))
             else:
-                n = callee_name(e)
+                n = cname(e)
                 for i, a in enumerate(e[2]):
                     a0 = strip(a)
                     r = root_of(a0)
@@ -121,6 +136,11 @@ def run(P, rep, tier):
         raise AnalysisBroken('a process-global lock / once-flag now exists (%s): C17 must be re-derived' % (glock + once))
     rep.ob('C17.NOLOCK', 'no-process-wide-lock', True, 'Source/Lib', 'no mutex or once-flag with static storage exists; every write to a global is unsynchronised between instances')
 
+    # ---------------- ESCAPE (also yields writers that reach a global through a pointer)
+    for name, f, ev, how in run_escape(P, rep, C, gl, mutable, libs):
+        if name in mutable:
+            writers.setdefault(name, {}).setdefault(f.name, (f, ev, how))
+
     # ---------------- GLOBAL
     rtcd_groups = {}
     nrep = 0
@@ -147,3 +167,454 @@ def run(P, rep, tier):
     rep.floor('C17.GLOBAL', 30)
     unwritten = [n for n in mutable if n not in writers and not mutable[n].get('fnptr')]
     rep.note('%d mutable globals have no writer in live code (could be const): %s' % (len(unwritten), sorted(unwritten)[:12]))
+
+
+# --------------------------------------------------------------------------------------------------------------- ESCAPE
+READ_ONLY_EXTERNALS = {'memcmp': None, 'strcmp': None, 'strncmp': None, 'strlen': None, 'printf': None, 'fprintf': None, 'fwrite': None, 'svt_log': None,
+                       'snprintf': (2, 3, 4, 5, 6, 7, 8, 9), 'sprintf': (1, 2, 3, 4, 5, 6, 7, 8), 'fputs': None, 'fopen': None, 'getenv': None,
+                       'memcpy': (1,), 'svt_memcpy': (1,), 'svt_memcpy_c': (1,), 'memmove': (1,), 'strcpy': (1,), 'strncpy': (1,), 'strtol': (0,), 'strtoul': (0,),
+                       'svt_print_alloc_fail': None, '__assert_fail': None,
+                       'pthread_setaffinity_np': None, 'sched_setaffinity': None, 'SetThreadGroupAffinity': None}
+
+
+def _is_array_type(t):
+    return '[' in (t or '')
+
+
+def run_escape(P, rep, C, gl, mutable, libs):
+    MG = {n for n, g in mutable.items() if not g.get('fnptr')}
+
+    def grefs(e):
+        return {x[1] for x in subexprs(e) if x[0] == 'v' and x[2] in ('g', 's')}
+    carriers = {}        # global -> all mutable globals whose address it holds
+    cfield = {}          # global -> {member id or '*': targets}  (which member holds which address, from the initialiser)
+    for n, g in gl.items():
+        if g.get('e') is not None:
+            t = grefs(g['e']) & MG
+            if not t:
+                continue
+            carriers[n] = set(t)
+            rt = g.get('type', '').replace('const ', '').split('[')[0].strip()
+            rec = P.records.get(rt)
+            fm = cfield.setdefault(n, {})
+            rows = g['e'][1] if g['e'][0] == 'il' else []
+            for row in rows:
+                if rec and row and row[0] == 'il' and len(row[1]) <= len(rec['fields']):
+                    for j, x in enumerate(row[1]):
+                        tj = grefs(x) & MG
+                        if tj:
+                            fm.setdefault(rt + '.' + rec['fields'][j]['n'], set()).update(tj)
+                else:
+                    tj = grefs(row) & MG
+                    if tj:
+                        fm.setdefault('*', set()).update(tj)
+            if not rows:
+                fm['*'] = set(t)
+    live = [f for f in P.fns if f.lib in libs and not f.nocfg and f not in C.dead]
+    ftypes = {}
+    for rn, r in P.records.items():
+        for fd in r.get('fields', ()):
+            ftypes[rn + '.' + fd['n']] = fd.get('t', '')
+
+    def ltypes(f, env):
+        d = {n: t for n, t in f.params}
+        for ev in f.events(('decl',)):
+            d[env.key(ev['n'], ev)] = ev.get('t', '')
+        return d
+
+    class Env:
+        """per-function state; a local name declared more than once (sibling scopes) is split per declaration, resolved
+        through the structured-control id of the event being evaluated"""
+
+        def __init__(self, f):
+            self.f = f
+            self.ev = None
+            self.multi = {}
+            seen = {}
+            for ev in f.events(('decl',)):
+                seen.setdefault(ev['n'], []).append(ev.get('ctl', -1))
+            self.multi = {n: c for n, c in seen.items() if len(c) > 1}
+
+        def anc(self, c):
+            out = []
+            while c is not None and c >= 0:
+                out.append(c)
+                c = self.f.ctl[c][0]
+            out.append(-1)
+            return out
+
+        def key(self, name, ev=None):
+            if name not in self.multi:
+                return name
+            ev = ev if ev is not None else self.ev
+            if ev is None:
+                return name
+            for c in self.anc(ev.get('ctl', -1)):
+                if c in self.multi[name]:
+                    return '%s#%d' % (name, c)
+            return name
+
+    def callees(f, ev):
+        """names of the functions a call may reach: the direct callee, or the implementations behind a dispatch pointer"""
+        e = ev['e']
+        n = cname(e) or ''
+        if n in MEMW or n in READ_ONLY_EXTERNALS or (callee_name(e) and P.by_name.get(n)):
+            return [n]
+        ts = sorted({t.name for t in P.call_targets(f, ev)})
+        return ts or [n]
+
+    def tag(e):
+        if e[0] == 'm':
+            return e[4] if len(e) > 4 else ''
+        if e[0] == 'i' or (e[0] == 'u' and e[1] == '*'):
+            return e[3] if len(e) > 3 else ''
+        return ''
+
+    def is_array_lv(e, env):
+        e = strip(e)
+        if e[0] in ('m', 'i') or (e[0] == 'u' and e[1] == '*'):
+            return tag(e) == 'a'
+        if e[0] == 'v':
+            if e[2] in ('g', 's'):
+                return _is_array_type(gl.get(e[1], {}).get('type', ''))
+            return _is_array_type(env.lt.get(env.key(e[1]), '')) and not e[2].startswith('p')
+        if e[0] == 'm':
+            return _is_array_type(ftypes.get(e[1], ''))
+        if e[0] == 'i':
+            b = strip(e[1])
+            if b[0] == 'v' and b[2] in ('g', 's'):
+                return gl.get(b[1], {}).get('type', '').count('[') > 1
+            if b[0] == 'm':
+                return ftypes.get(b[1], '').count('[') > 1
+            if b[0] == 'v':
+                return env.lt.get(env.key(b[1]), '').count('[') > 1
+        return False
+
+    def storage(e, env):
+        """where the lvalue e lives: ('var', v-node) or ('deref', pointer expression)"""
+        e = strip(e)
+        if not e:
+            return None
+        if e[0] == 'v':
+            return ('var', e)
+        if e[0] == 'm':
+            return ('deref', e[3]) if e[2] else storage(e[3], env)
+        if e[0] == 'i':
+            return storage(e[1], env) if is_array_lv(e[1], env) else ('deref', e[1])
+        if e[0] == 'u' and e[1] == '*':
+            return ('deref', e[2])
+        return None
+
+    RET = {}     # function name -> markers its return value may carry
+
+    def pv(e, env, depth=0):
+        """markers of the storage a pointer-valued expression may point into: 'G:<mutable global>' / 'H:<carrier>'"""
+        e = strip(e)
+        if not e or not isinstance(e[0], str) or depth > 12:
+            return set()
+        k = e[0]
+        if k == 'v':
+            if e[2] in ('g', 's'):
+                if is_array_lv(e, env):
+                    out = set()
+                    if e[1] in MG:
+                        out.add('G:' + e[1])
+                    if e[1] in carriers:
+                        out.add('H:' + e[1])
+                    return out
+                return set()
+            return set(env.gp.get(env.key(e[1]), ()))
+        if k == 'u' and e[1] == '&':
+            st = storage(e[2], env)
+            if st is None:
+                return set()
+            if st[0] == 'var':
+                v = st[1]
+                if v[2] in ('g', 's'):
+                    out = set()
+                    if v[1] in MG:
+                        out.add('G:' + v[1])
+                    if v[1] in carriers:
+                        out.add('H:' + v[1])
+                    return out
+                return set()
+            return pv(st[1], env, depth + 1)
+        if k == 'b' and e[1] in ('+', '-'):
+            return pv(e[2], env, depth + 1) | pv(e[3], env, depth + 1)
+        if k == 'q':
+            return pv(e[2], env, depth + 1) | pv(e[3], env, depth + 1)
+        if k == 'a' and e[1] == '=':
+            return pv(e[3], env, depth + 1)
+        if k == 'c':
+            return set(RET.get(cname(e) or '', ()))
+        if k in ('m', 'i') or (k == 'u' and e[1] == '*'):
+            t = tag(e)
+            st = storage(e, env)
+            if t == 'a':
+                # array member / row of a 2-D array: decays to a pointer into the same storage
+                if st and st[0] == 'var' and st[1][2] in ('g', 's'):
+                    n = st[1][1]
+                    return ({'G:' + n} if n in MG else set()) | ({'H:' + n} if n in carriers else set())
+                if st and st[0] == 'deref':
+                    return pv(st[1], env, depth + 1)
+                return set()
+            if t != 'p':
+                return set()
+            # a pointer read out of storage: only carriers (tables holding addresses of mutable globals) matter
+            hs = set()
+            if st and st[0] == 'var' and st[1][2] in ('g', 's') and st[1][1] in carriers:
+                hs.add(st[1][1])
+            elif st and st[0] == 'deref':
+                hs |= {m[2:] for m in pv(st[1], env, depth + 1) if m[2:] in carriers}
+            out = set()
+            fid = e[1] if k == 'm' else None
+            for h in hs:
+                fm = cfield.get(h, {})
+                tg = set(fm.get('*', ())) | (set(fm.get(fid, ())) if fid else set().union(*fm.values()) if fm else set())
+                out |= {'G:' + x for x in tg}
+            return out
+        return set()
+
+    def build_env(f):
+        env = Env(f)
+        env.lt = ltypes(f, env)
+        env.gp = {}
+        ch = True
+        n = 0
+        while ch and n < 8:
+            ch = False
+            n += 1
+            for ev in f.events(('decl', 'st')):
+                e = ev.get('e')
+                if e is None:
+                    continue
+                if ev['k'] == 'decl':
+                    name, rhs = ev['n'], e
+                elif e[0] == 'a' and e[1] in ('=', '+=', '-=') and strip(e[2])[0] == 'v' and not strip(e[2])[2] in ('g', 's'):
+                    name, rhs = strip(e[2])[1], e[3]
+                else:
+                    continue
+                env.ev = ev
+                name = env.key(name, ev)
+                if '*' not in env.lt.get(name, '*') and '[' not in env.lt.get(name, ''):
+                    continue
+                m = pv(rhs, env)
+                if m - env.gp.get(name, set()):
+                    env.gp.setdefault(name, set()).update(m); ch = True
+        return env
+
+    # callee parameter summaries (transitive): writes through / lets escape parameter i
+    pw, pe = set(), set()
+    ch = True
+    rounds = 0
+    while ch and rounds < 6:
+        ch = False
+        rounds += 1
+        for f in P.fns:
+            if f.nocfg or f.lib not in libs:
+                continue
+            pn = {n: i for i, (n, t) in enumerate(f.params) if t.rstrip().endswith('*') or '[' in t}
+            if not pn:
+                continue
+
+            def proot(x):
+                x = strip(x)
+                while x and x[0] in ('b', 'u'):
+                    if x[0] == 'b' and x[1] in ('+', '-'):
+                        x = strip(x[2])
+                    elif x[0] == 'u' and x[1] == '&':
+                        x = strip(x[2])
+                        while x and x[0] in ('i', 'm'):       # &p[i], &p[i].f, &p->f : still inside p's pointee
+                            x = strip(x[1] if x[0] == 'i' else x[3])
+                    else:
+                        break
+                return x[1] if x and x[0] == 'v' and x[2].startswith('p') and x[1] in pn else None
+            for ev in f.events(('st', 'call', 'ret')):
+                e = ev.get('e')
+                if e is None:
+                    continue
+                if ev['k'] == 'st':
+                    t = strip(e[2]) if e[0] in ('a', 'u') else None
+                    if t is None:
+                        continue
+                    if t[0] != 'v':
+                        r = root_of(t)
+                        if r is not None and r[1] in pn and r[2].startswith('p') and (f.name, pn[r[1]]) not in pw:
+                            pw.add((f.name, pn[r[1]])); ch = True
+                        if e[0] == 'a' and e[1] == '=':
+                            p = proot(e[3])
+                            if p and (f.name, pn[p]) not in pe and 'const' not in ftypes.get(last_field(t) or '', '').split('*')[0]:
+                                pe.add((f.name, pn[p])); ch = True
+                elif ev['k'] == 'ret':
+                    p = proot(e)
+                    if p and (f.name, pn[p]) not in pe:
+                        pe.add((f.name, pn[p])); ch = True
+                else:
+                    ns = None
+                    for i, a in enumerate(e[2]):
+                        p = proot(a)
+                        if not p:
+                            continue
+                        if ns is None:
+                            ns = callees(f, ev)
+                        if any((n in MEMW and i in MEMW[n]) or (n, i) in pw for n in ns) and (f.name, pn[p]) not in pw:
+                            pw.add((f.name, pn[p])); ch = True
+                        if any((n, i) in pe for n in ns) and (f.name, pn[p]) not in pe:
+                            pe.add((f.name, pn[p])); ch = True
+
+    def analyse():
+        # functions returning global addresses (fixpoint)
+        envs = {}
+        ch = True
+        rounds = 0
+        while ch and rounds < 5:
+            ch = False
+            rounds += 1
+            for f in live:
+                env = build_env(f)
+                envs[f.key] = env
+                for ev in f.events(('ret',)):
+                    if ev.get('e') is None:
+                        continue
+                    env.ev = ev
+                    m = pv(ev['e'], env)
+                    if m - RET.get(f.name, set()):
+                        RET.setdefault(f.name, set()).update(m); ch = True
+
+        sites = {}     # (fn, marker) -> list of (ok, loc, text)
+        alias_writes = []
+        grew = []
+
+        def add(f, ev, ms, ok, text):
+            for m in ms:
+                sites.setdefault((f.name, m), []).append((ok, f.loc(ev), text))
+
+        externals = set()
+        for f in live:
+            env = envs[f.key]
+            for ev in f.events(('st', 'call', 'decl', 'ret')):
+                e = ev.get('e')
+                if e is None:
+                    continue
+                env.ev = ev
+                if ev['k'] == 'decl':
+                    m = pv(e, env)
+                    if m:
+                        add(f, ev, m, True, 'held in local %s (uses followed)' % ev['n'])
+                    continue
+                if ev['k'] == 'ret':
+                    m = pv(e, env)
+                    if m:
+                        api = f in C.api if hasattr(C, 'api') else False
+                        add(f, ev, m, True, 'returned to the caller (followed there)')
+                    continue
+                if ev['k'] == 'st':
+                    if e[0] not in ('a', 'u'):
+                        continue
+                    lhs = strip(e[2])
+                    st = storage(lhs, env)
+                    if lhs[0] != 'v' and st and st[0] == 'deref':
+                        w = {m for m in pv(st[1], env) if m.startswith('G:')}
+                        if w:
+                            add(f, ev, w, True, 'write through a pointer into the global (%s): counted as a writer under C17.GLOBAL' % pstr(e)[:50])
+                            for x in w:
+                                alias_writes.append((x[2:], f, ev, 'store through a pointer into it: %s' % pstr(e)[:50]))
+                    if e[0] != 'a' or e[1] != '=':
+                        continue
+                    m = pv(e[3], env)
+                    if lhs[0] == 'v' and lhs[2] not in ('g', 's'):
+                        continue
+                    gm = {x for x in m if x.startswith('G:')}
+                    if gm:
+                        lf = last_field(lhs)
+                        ft = ftypes.get(lf or '', '')
+                        if lhs[0] == 'v':
+                            ft = gl.get(lhs[1], {}).get('type', '')
+                        ro = 'const' in ft.split('*')[0] and '*' in ft
+                        dglob = set()
+                        if st and st[0] == 'var' and st[1][2] in ('g', 's'):
+                            dglob.add(st[1][1])
+                        elif st and st[0] == 'deref':
+                            dglob |= {x[2:] for x in pv(st[1], env)}
+                        if dglob and not ro:
+                            # global-to-global link: not instance-owned storage; the destination becomes a carrier
+                            for d in dglob:
+                                fk = lf if lhs[0] == 'm' and lf else '*'
+                                if not ({x[2:] for x in gm} <= cfield.get(d, {}).get(fk, set())):
+                                    carriers.setdefault(d, set()).update(x[2:] for x in gm)
+                                    cfield.setdefault(d, {}).setdefault(fk, set()).update(x[2:] for x in gm)
+                                    grew.append(d)
+                            add(f, ev, gm, True, 'stored into process-global %s (global-to-global link; readers of that table are followed)' % sorted(dglob)[0])
+                            continue
+                        add(f, ev, gm, ro, ('stored into %s as a pointer to const' if ro else 'ESCAPES: stored into %s, a pointer through which the pointee can be written') % pstr(lhs)[:50])
+                    # whole-struct copy out of a carrier
+                    r = strip(e[3])
+                    if r[0] in ('i',) or (r[0] == 'u' and r[1] == '*'):
+                        st2 = storage(r, env)
+                        hs = set()
+                        if st2 and st2[0] == 'var' and st2[1][2] in ('g', 's') and st2[1][1] in carriers and strip(r[1] if r[0] == 'i' else r[2])[0] == 'v':
+                            hs.add(st2[1][1])
+                        elif st2 and st2[0] == 'deref':
+                            hs |= {x[2:] for x in pv(st2[1], env) if x.startswith('H:')}
+                        for h in hs:
+                            if 'struct' in gl[h].get('type', '') or gl[h].get('type', '').replace('const ', '').split('[')[0].strip() in P.records:
+                                add(f, ev, {'H:' + h}, False, 'ESCAPES: element of %s (which holds addresses of mutable globals) copied by value into %s' % (h, pstr(lhs)[:40]))
+                    continue
+                # calls
+                n = cname(e) or ''
+                for i, a in enumerate(e[2]):
+                    m = pv(a, env)
+                    if not m:
+                        continue
+                    a0 = strip(a)
+                    direct = root_of(a0) is not None and root_of(a0)[2] in ('g', 's') and not any(x[0] == 'm' and x[2] for x in subexprs(a0))
+                    gm = {x for x in m if x.startswith('G:')}
+                    hm = {x for x in m if x.startswith('H:')}
+                    ns = callees(f, ev)
+                    writes = any((x in MEMW and i in MEMW[x]) or (x, i) in pw for x in ns)
+                    if gm and writes:
+                        if direct:
+                            add(f, ev, gm, True, 'written through argument %d of %s: recorded as a writer under C17.GLOBAL' % (i, n))
+                        else:
+                            add(f, ev, gm, True, 'written through a pointer into it handed to %s: counted as a writer under C17.GLOBAL' % n)
+                            for x in gm:
+                                alias_writes.append((x[2:], f, ev, 'written through a pointer into it passed as argument %d of %s' % (i, n)))
+                        continue
+                    if gm and any((x, i) in pe for x in ns):
+                        add(f, ev, gm, False, 'ESCAPES: %s stores / returns its parameter %d' % (n, i))
+                        continue
+                    if hm and n in ('memcpy', 'svt_memcpy', 'svt_memcpy_c', 'memmove') and i == 1:
+                        for h in hm:
+                            rt = gl[h[2:]].get('type', '').replace('const ', '').split('[')[0].strip()
+                            if rt in P.records and any(fd.get('ptr') for fd in P.records[rt].get('fields', ())):
+                                add(f, ev, {h}, False, 'ESCAPES: bytes of %s, whose elements hold addresses of mutable globals (%s), copied into %s' %
+                                    (h[2:], ', '.join(sorted(carriers[h[2:]])[:2]), pstr(strip(e[2][0]))[:50]))
+                            else:
+                                add(f, ev, {h}, True, 'read-only source of %s' % n)
+                        continue
+                    if all(P.by_name.get(x) for x in ns):
+                        add(f, ev, m, True, 'argument %d of %s%s, which neither writes through nor keeps that parameter' % (i, n, '' if ns == [n] else ' (%d implementations)' % len(ns)))
+                    elif n in READ_ONLY_EXTERNALS and (READ_ONLY_EXTERNALS[n] is None or i in READ_ONLY_EXTERNALS[n]):
+                        add(f, ev, m, True, 'read-only argument of %s' % n)
+                    else:
+                        externals.add(n)
+                        add(f, ev, m, False, 'argument %d of %s: external / indirect callee with unknown effect on the pointee' % (i, n or pstr(e[1])[:30]))
+        return envs, sites, alias_writes, grew, externals
+
+    for _round in range(5):
+        envs, sites, alias_writes, grew, externals = analyse()
+        if not grew:
+            break
+    nsite = 0
+    for (fn, m), lst in sorted(sites.items()):
+        bad = [x for x in lst if not x[0]]
+        nsite += 1
+        what = ('mutable global %s' % m[2:]) if m.startswith('G:') else ('carrier table %s (holds addresses of %s)' % (m[2:], ', '.join(sorted(carriers[m[2:]])[:3])))
+        if bad:
+            rep.ob('C17.ESCAPE', 'addr:%s@%s' % (m[2:], fn), False, bad[0][1], 'address of %s: %s' % (what, bad[0][2]))
+        else:
+            rep.ob('C17.ESCAPE', 'addr:%s@%s' % (m[2:], fn), True, lst[0][1], 'address of %s is only read through here (%d uses: %s)' % (what, len(lst), lst[0][2][:60]))
+    rep.analysed['escape'] = {'mutable_globals': len(MG), 'carriers': sorted(carriers), 'address_sites': nsite, 'param_write_summaries': len(pw), 'param_escape_summaries': len(pe),
+                              'functions_returning_global_addresses': sorted(RET)}
+    rep.floor('C17.ESCAPE', 20)
+    return alias_writes
